@@ -19,6 +19,8 @@
 (*  "adj"   relational: quantised <W x, y> against <x, W^* y>               *)
 (*  "lay"   coefficient layout observed on a WaveletTransform against       *)
 (*          WaveLayout!Layout                                               *)
+(*  "deriv" option record read from an operator obtained by .inverse /     *)
+(*          .adjoint along a path against DFTDerive!Chain(base, path)       *)
 (*  "hist"  one call of a history on one transform object against           *)
 (*          DFTMachine!Post (value, argument survives, frame)               *)
 (* Every event may carry err # "" (the public call raised).                 *)
@@ -28,6 +30,7 @@ EXTENDS DFTSem, Json, IOUtils
 VARIABLES l, heap, hist
 WL == INSTANCE WaveLayout
 DM == INSTANCE DFTMachine WITH MaxLen <- 0
+DD == INSTANCE DFTDerive WITH Bases <- {}, MaxLen <- 0, base <- 0, desc <- 0, path <- <<>>
 
 Trace == ndJsonDeserialize(IOEnv.TRACE_FILE)
 
@@ -87,6 +90,12 @@ HistClauses(e) ==
   ELSE LET exp == DM!Post(e.pre, e.act)
        IN  {<<"hist", o>> : o \in {o \in DM!Objs : e.post[o] # exp[o]}}
 
+DerivClauses(e) ==
+  IF ~DD!ChainEnabled(e.base, e.path) THEN {<<"not-enabled", 0>>}
+  ELSE LET exp == DD!Chain(e.base, e.path)
+       IN  IF DOMAIN e.obs # DOMAIN exp THEN {<<"derived", "fields">>}
+           ELSE {<<"derived", f>> : f \in {f \in DOMAIN exp : e.obs[f] # exp[f]}}
+
 Clauses(e) ==
   IF e.err # "" THEN {<<"raised", e.err>>}
   ELSE CASE e.k = "tab"  -> TabClauses(e)
@@ -97,6 +106,7 @@ Clauses(e) ==
          [] e.k = "adj"  -> AdjClauses(e)
          [] e.k = "lay"  -> LayClauses(e)
          [] e.k = "hist" -> HistClauses(e)
+         [] e.k = "deriv" -> DerivClauses(e)
          [] OTHER -> {<<"unknown-kind", 0>>}
 
 tvars == <<l, heap, hist>>
